@@ -613,7 +613,7 @@ func init() {
 			"the no-op marker as element type of a typed container is not generated (the parser refuses it)",
 		},
 		Suites: []*run.Suite{
-			{Name: "valid", N: tierN(150000, 6000000), Case: c06Valid, Require: []string{"values_equal_to_reference", "feature_typed", "feature_counted", "feature_typed-container-of-containers", "feature_highprec", "feature_char", "feature_noop-in-container", "feature_noop-in-counted", "feature_noop-in-object"}},
+			{Name: "valid", N: tierN(150000, 6000000), Case: c06Valid, Require: []string{"values_equal_to_reference", "feature_typed", "feature_counted", "feature_typed-container-of-containers", "feature_highprec", "feature_char", "feature_noop-in-container", "feature_noop-in-counted", "feature_noop-in-object", "feature_noop-before-key"}},
 			{Name: "directed", N: tierN(6000, 60000), Case: c06Directed, Require: []string{"values_equal_to_reference"}},
 		},
 	})
